@@ -269,7 +269,7 @@ def classify_trace_verdicts(res, known, verdicts, idx, driver):
         path = write_replay(res.prop, v["verdict"], payload)
         text = "%s on test cases %s settings %s -> %s" % (
             key, json.dumps(g.get("tcs"), ensure_ascii=True)[:300],
-            json.dumps({k2: v2 for k2, v2 in rr.get("cfg", {}).items() if v2 not in (False, 1)}),
+            json.dumps({k2: v2 for k2, v2 in rr.get("cfg", {}).items() if v2 is True or (v2 is not False and v2 != 1)}),
             json.dumps(rr.get("out", rr.get("panic", "")), ensure_ascii=True)[:300])
         res.add_violation(key, path, text)
 
@@ -358,6 +358,8 @@ def main(argv):
             return props.selftest()
         if argv[0] == "--replay":
             return props.replay(argv[1])
+        if argv[0] == "dev-driver":
+            return props.dev_driver(argv[1], *(argv[2:3]))
         prop = argv[0]
         tier = os.environ.get("VERIF_TIER", "quick")
         seed = int(os.environ.get("VERIF_SEED", "0") or 0)
